@@ -18,6 +18,7 @@ pub fn base_peer(k: usize, pieces: usize) -> PeerPlan {
         accept_delay: 1,
         max_accepts: 1,
         dial_in: vec![],
+        dial_in_same_addr: false,
         has: vec![true; pieces],
         bitfield: BitfieldMode::Send,
         hs: Hs::Ok,
@@ -419,6 +420,11 @@ pub fn honest_swarm(seed: u64) -> Plan {
         if r.chance(1, 4) {
             peer.dial_in = vec![r.range(0, 60_000)];
             peer.listed = r.chance(1, 2);
+            // cross-connect from the listening port while we may be dialling it ourselves
+            if peer.listed && r.chance(1, 2) {
+                peer.dial_in_same_addr = true;
+                peer.max_accepts = peer.max_accepts.max(2);
+            }
             peer.script.push(step(When::At(r.range(1, 500)), Act::Send(Msg::Interested)));
             peer.script.push(step(When::AfterRx { kind: "Unchoke".into(), count: 1, plus: r.range(1, 200) }, Act::RequestOwned(r.range(1, 4) as u32)));
         }
@@ -1287,6 +1293,11 @@ pub fn bookkeeping(seed: u64) -> Plan {
         if r.chance(1, 6) {
             peer.listed = r.chance(1, 2);
             peer.dial_in = vec![r.range(0, 5000)];
+            // cross-connect: listed and dialling in from its listening address
+            if peer.listed && r.chance(1, 2) {
+                peer.dial_in_same_addr = true;
+                peer.max_accepts = peer.max_accepts.max(2);
+            }
         }
         // while a piece is in flight: the bitfield again, then a new piece announced
         if r.chance(1, 4) {
